@@ -515,13 +515,37 @@ def make_fault(gen, v, rng, kind=None):
     if kind == "annihilate-state":
         # a custom operator of a renormalising family whose kernel contains the whole support of the target's
         # reduced state: the result has trace zero and cannot be renormalised (the general form of "annihilating the vacuum")
-        cands = [n for n in lv if w.kind(n) in ("P", "X") and v["dims"].get(n)]
+        cands = [n for n in lv if w.kind(n) in ("P", "X", "F") and v["dims"].get(n)]
         rng.shuffle(cands)
         for t in cands[:3]:
             try:
                 r, _ = denote(sn, [t])
             except Malformed:
                 continue
+            if w.kind(t) == "F":
+                # a custom Fock operator (not a renormalising type, but the all-zero result is no state either):
+                # the lowering matrix on the vacuum, or any matrix whose kernel holds the support; never smaller
+                # than the space (no implicit shrink)
+                d0 = r.shape[0]
+                if d0 < 2 or d0 > 8:
+                    continue
+                evf, Uf = np.linalg.eigh((r + r.conj().T) / 2)
+                kerf = evf < 1e-15
+                if not kerf.any() or np.any((evf >= 1e-15) & (evf < 1e-6)):
+                    continue
+                if abs(r[0, 0] - 1) < 1e-14 and rng.random() < 0.6:
+                    M = np.diag(np.sqrt(np.arange(1, d0)), 1).astype(complex)
+                else:
+                    M = ref.haar_unitary(rng, d0) @ (Uf[:, kerf] @ Uf[:, kerf].conj().T)
+                if np.real(np.trace(M @ r @ M.conj().T)) > 1e-28:
+                    continue
+                via = gen.pick_via(v, [t])
+                if via is None:
+                    continue
+                st = {"k": "apply", "op": {"fam": "fock", "type": "Custom", "operator": c2j(M)}, "targets": [t]}
+                st.update(via)
+                st["fault"] = kind
+                return st
             ev, U = np.linalg.eigh((r + r.conj().T) / 2)
             ker = ev < 1e-15
             if not ker.any() or ker.all() or np.any((ev >= 1e-15) & (ev < 1e-6)):
